@@ -68,6 +68,8 @@ impl FeoxStore {
 
             let value = {
                 let record = entry.value().load(&guard);
+                #[cfg(feoxdb_verif)]
+                crate::verif::yield_point("range.after_slot_load");
                 self.resolve_value_ref(entry.key(), record)
             };
             entries_since_repin += 1;
